@@ -96,10 +96,12 @@ def ensure_built():
 
 
 # ---------------------------------------------------------------- TLC
-def tlc_cmd(metadir, args, heap=None):
+def tlc_cmd(metadir, args, heap=None, gcthreads=None):
     cmd = ["java", "-XX:+UseParallelGC", "-Xss1g"]
     if heap:
         cmd.append("-Xmx" + heap)
+    if gcthreads:
+        cmd.append("-XX:ParallelGCThreads=%d" % gcthreads)
     cmd += ["-cp", "%s:%s:%s" % (JAR, CM, SPEC),
             "-DTLA-Library=%s:%s/mc:%s/trace" % (SPEC, SPEC, SPEC),
             "tlc2.TLC", "-metadir", metadir, "-noGenerateSpecTE"] + args
@@ -110,7 +112,7 @@ _STATS = re.compile(r"(\d+) states generated, (\d+) distinct states found, (\d+)
 _DEPTH = re.compile(r"The depth of the complete state graph search is (\d+)")
 
 
-def run_tlc(tla, cfg=None, workers=1, env=None, extra=None, timeout=3600, heap=None, cwd=None):
+def run_tlc(tla, cfg=None, workers=1, env=None, extra=None, timeout=3600, heap=None, cwd=None, gcthreads=None):
     """Run TLC on spec file `tla`; returns dict(out, rc, ok, generated, distinct, depth)."""
     ensure_built()
     md = tempfile.mkdtemp(prefix="vtlc_")
@@ -127,7 +129,7 @@ def run_tlc(tla, cfg=None, workers=1, env=None, extra=None, timeout=3600, heap=N
             e.update(env)
         t0 = time.time()
         try:
-            r = subprocess.run(tlc_cmd(md, args, heap), capture_output=True, text=True,
+            r = subprocess.run(tlc_cmd(md, args, heap, gcthreads or (2 if workers == 1 else None)), capture_output=True, text=True,
                                env=e, timeout=timeout, cwd=cwd or SPEC)
             out, rc = r.stdout + r.stderr, r.returncode
         except subprocess.TimeoutExpired as ex:
@@ -184,7 +186,7 @@ def _validate_shard(args):
     while start <= n:
         env = {"TRACE_FILE": path, "TRACE_START": str(start)}
         env.update(env_extra or {})
-        r = run_tlc(tla, cfg, workers=1, env=env, timeout=timeout)
+        r = run_tlc(tla, cfg, workers=1, env=env, timeout=timeout, heap="3g", gcthreads=2)
         wall += r["wall"]
         for m in _MIS.finditer(r["out"]):
             mismatches.append((int(m.group(1)), m.group(2), (m.group(3) or "")[:2000]))
@@ -203,8 +205,10 @@ def _validate_shard(args):
         mismatches.append((recs[bad - 1]["id"], "unexplainable",
                            "TLC could not evaluate this record: " + (err.group(1)[:1500] if err else "?")))
         restarts += 1
-        if restarts > 50:
-            raise MachineryError("too many evaluation errors in %s shard %d" % (module, idx))
+        if restarts >= 6:
+            # enough un-explainable records in this shard: stop validating it (the
+            # records reported so far already make the run a failure)
+            break
         # skip to the start of the next trace (records with k > 0 belong to the failed one)
         start = bad + 1
         while start <= n and recs[start - 1].get("k", 0) > 0:
